@@ -45,7 +45,7 @@ T = '''
                 forall|i: int| 0 <= i < popped.len() && !took[i] ==> item_bytes(#[trigger] popped[i], PREFIX).len() > buffer.rem(), // [C15.fill] no omission
                 forall|i: int, j: int| 0 <= i < j < popped.len() ==> entry_cmp(#[trigger] popped[j], #[trigger] popped[i]) != Ordering::Greater, // [C15.fill] precedence
                 forall|y: Entry<T>, i: int| heap_view(&self.flip).count(y) > 0 && 0 <= i < popped.len() ==> #[trigger] entry_cmp(y, popped[i]) != Ordering::Greater, // [C15.fill] precedence
-                forall|e: Entry<T>| requeue(popped, took).count(e) > 0 ==> e.remaining_tx > 0,
+                forall|e: Entry<T>| requeue(popped, took).count(e) > 0 ==> e.remaining_tx > 0, // [C15.fill] nothing is requeued with zero transmissions left
                 forall|e: Entry<T>| #[trigger] requeue(popped, took).count(e) > 0 ==> old(self).bag().count(e) > 0 || old(self).bag().count(undec(e)) > 0,
             ensures
                 heap_view(&self.flip).len() == 0 || buffer.rem() == 0 || remaining == 0, // [C15.fill] no omission
